@@ -530,10 +530,45 @@ def run_query(env, cfg, case):
 
 
 def _cfgs(extra=()):
-    return {"quick": ["base256", "w8"], "thorough": ["base256", "w8", "w16", "w32", "karat2", "magni-carry"] + list(extra)}
+    return {"quick": ["base256", "w8"], "thorough": ["base256", "w8", "w16", "w32", "magni-carry"] + list(extra)}
 
+
+def strat_karat(env, cfg):
+    """multiplication / squaring only, for the build with real Karatsuba recursion (BN_KARAT=2)"""
+    I = info(env, cfg)
+    W, SIZE, DIGS = I["W"], I["SIZE"], I["DIGS"]
+
+    @st.composite
+    def s(draw):
+        op = draw(st.sampled_from(["bn_mul_karat", "bn_mul_karat", "bn_mul", "bn_mul_comba", "bn_mul_basic"]))
+        alias = draw(st.sampled_from([0, 0, 1, 2, 3, 4]))
+        hi = min(DIGS, SIZE // 2)
+        na = draw(st.sampled_from([hi, hi - 1, hi // 2, hi // 2 + 1, hi // 4 + 1, 3, 5, 7]))
+        a = draw(ints.g_int(W, na))
+        b = a if alias >= 3 else draw(st.one_of(ints.g_int(W, hi), ints.related(a, W, hi)))
+        return dict(op=op, a=a, b=b, alias=alias, stale=draw(ints.g_int(W, SIZE)), poison=draw(st.integers(0, 255)))
+    return s()
+
+
+def strat_karat_sqr(env, cfg):
+    I = info(env, cfg)
+    W, SIZE, DIGS = I["W"], I["SIZE"], I["DIGS"]
+
+    @st.composite
+    def s(draw):
+        op = draw(st.sampled_from(["bn_sqr_karat", "bn_sqr_karat", "bn_sqr", "bn_sqr_comba", "bn_sqr_basic"]))
+        hi = min(DIGS, SIZE // 2)
+        na = draw(st.sampled_from([hi, hi - 1, hi // 2, hi // 2 + 1, hi // 4 + 1, 3, 5, 7]))
+        return dict(op=op, a=draw(ints.g_int(W, na)), alias=draw(st.sampled_from([0, 1])), stale=draw(ints.g_int(W, SIZE)),
+                    poison=draw(st.integers(0, 255)))
+    return s()
+
+
+_K = {"quick": ["karat2"], "thorough": ["karat2"]}
 
 TARGETS = [
+    Target("karat-mul", strat_karat, run_arith3, _K, quick=12000, thorough=80000),
+    Target("karat-sqr", strat_karat_sqr, run_arith2, _K, quick=6000, thorough=40000),
     Target("arith3", strat_arith3, run_arith3, _cfgs(), quick=60000, thorough=400000),
     Target("arith2", strat_arith2, run_arith2, _cfgs(), quick=30000, thorough=200000),
     Target("digops", strat_digops, run_digops, _cfgs(), quick=30000, thorough=200000),
